@@ -97,6 +97,8 @@ def check(chk: Check) -> None:
                 diff = pipejob.first_diff(items, want) if not ok else ""
             if ok:
                 chk.ok(rd, inst, {"statements": len(items)})
+            elif jb["integ"] == "rdflib" and c02._as_set(P.fold_langcase(items)) == c02._as_set(P.fold_langcase(tuple(res["expected_set"]))):
+                chk.fail(rd, inst, P.LANGCASE_CONSTRUCT, f"an independent decoder reads a language tag in a different spelling from the stream written for {jb['name']} ({cfg}): {diff}")
             else:
                 chk.fail(rd, inst, f"emitted-stream:decodes-differently:{jb['integ']}", f"an independent decoder reads different statements from the stream written for {jb['name']} ({cfg}): {diff}")
             if "ns_on" in job:
